@@ -476,10 +476,8 @@ fn c07_scratchpad_conc() {
     let c0 = Counter(SymU::fresh("stored_counter"));
     let ca = Counter(SymU::fresh("delivered_counter_a"));
     let cb = Counter(SymU::fresh("delivered_counter_b"));
-    // both deliveries are valid, newer than what is stored, and differ
-    symrt::assume(c0.0.slt(ca.0).0);
-    symrt::assume(c0.0.slt(cb.0).0);
-    symrt::assume(ca.0.slt(cb.0).0);
+    // both deliveries are validly signed; their counters are unrelated to each other and to the stored one
+    // (stale, equal and newer deliveries all occur)
     let old = pad_access::make(&owner, c0, b"old", Some(&owner));
     let key = old.network_address().to_record_key();
     c.net.hold(Record { key: key.clone(), value: try_serialize_record(&old, RecordKind::Scratchpad).unwrap().to_vec(), publisher: None, expires: None });
@@ -536,11 +534,19 @@ fn c07_scratchpad_conc() {
     let fin = stored_pad(&c, &key).expect("held");
     cover("settled");
     check("conc:counter_never_decreases", c0.0.sle(fin.count().0).0);
-    // b carries the highest counter of the valid delivered versions
-    let is_b = pad_access::payload_of(&fin) == b"version-b".to_vec();
-    if !is_b {
-        check_bool("conc:stored_version_is_highest_delivered[check_then_put_not_serialised]", false);
+    // the stored version carries the highest counter among the stored one and the two deliveries
+    let fc = fin.count().0;
+    let lost = fc.slt(ca.0).or(fc.slt(cb.0)).get();
+    if lost {
+        let both_newer = c0.0.slt(ca.0).and(c0.0.slt(cb.0)).get();
+        if both_newer {
+            check_bool("conc:stored_version_is_highest_delivered[check_then_put_not_serialised]", false);
+        } else {
+            check_bool("conc:stored_version_is_highest_delivered", false);
+        }
     } else {
         check_bool("conc:stored_version_is_highest_delivered", true);
+        if c0.0.slt(fc).get() { cover("replaced_by_a_delivery"); } else { cover("both_deliveries_stale"); }
     }
+    check_bool("conc:stored_version_is_owner_signed", fin.is_valid() && fin.owner() == &owner.public_key());
 }
